@@ -187,4 +187,32 @@ def movedOnlyToJoiners (ms : List MemberS) (plan : Plan) : Bool :=
          | some x => x.kind == .none
          | none => false)))
 
+
+/-! ### rejoin: a member comes back with the user data of an older generation -/
+
+def genOf (m : MemberS) : Option Int := match m.kind with | .gen g => some g | _ => none
+
+/-- the newest generation reported (`none` when nobody reports one) -/
+def latestGen (ms : List MemberS) : Option Int :=
+  (ms.filterMap genOf).foldl (fun acc g => match acc with | none => some g | some a => some (if g > a then g else a)) none
+
+/-- only V1 data or none, and the claims of the newest generation are pairwise disjoint and duplicate free -/
+def latestClean (ms : List MemberS) : Option Int :=
+  if ms.all (fun m => match m.kind with | .none => true | .gen _ => true | _ => false) then
+    match latestGen ms with
+    | some g => if nodupB ((ms.filter (fun m => genOf m == some g)).flatMap (·.claims)) then some g else none
+    | none => none
+  else none
+
+/-- every partition claimed by a member of the newest generation `g` stayed, or went to a member that is not of the
+    newest generation (the rejoiner or a joiner) -/
+def movedOnlyToStale (ms : List MemberS) (plan : Plan) (g : Int) : Bool :=
+  (ms.filter (fun m => genOf m == some g)).all (fun m => m.claims.all (fun p =>
+    match ownerOf plan (ms.map (·.id)) p with
+    | none => false
+    | some o => o == m.id ||
+        (match ms.find? (fun x => x.id == o) with
+         | some x => !(genOf x == some g)
+         | none => false)))
+
 end Model.Balance
